@@ -116,6 +116,12 @@ static void mini_case(FT value)
         if (vrt::str_of(got) != want || got.c_str()[got.size()] != 0)
             vrt::violation(sfmt("C13:from_%s:differs-from-printf", sizeof(FT) == 4 ? "float" : "double"),
                            sfmt("value=%s class=%c got=%s want=%s", dbl_bits(dv).c_str(), *c, vrt::str_of(got).substr(0, 200).c_str(), want.substr(0, 200).c_str()));
+        {   // the overload of from_float that takes a double forwards the letter as well
+            ST::string viad = ST::string::from_float(dv, *c);
+            vrt::evals();
+            if (vrt::str_of(viad) != want)
+                vrt::violation("C13:from_float(double,letter):differs-from-printf", sfmt("value=%s class=%c got=%s want=%s", dbl_bits(dv).c_str(), *c, vrt::str_of(viad).substr(0, 200).c_str(), want.substr(0, 200).c_str()));
+        }
         if (want.size() >= 64) vrt::count("mini.rendering_64_or_longer");
         if (want.size() >= 62 && want.size() <= 66) vrt::count(sfmt("mini.rendering_len_%zu", want.size()));
     }
